@@ -129,7 +129,7 @@ func runC15(c *Ctx) []Violation {
 	var hist []string
 	histSig := uint64(0)
 	c.T.Repeat("c15.h", 0, 10, 4, 5, func(int) {
-		kind := c.T.Weighted("c15.h.kind", 4, 2, 2, 1, 1, 2)
+		kind := c.T.Weighted("c15.h.kind", 4, 2, 2, 1, 1, 2, 3)
 		histSig = histSig*31 + uint64(kind) + 1
 		switch kind {
 		case 0, 1, 2: // another transform: complete, abandoned mid-stream, or ended by an I/O fault
@@ -179,6 +179,27 @@ func runC15(c *Ctx) []Violation {
 			tr := run.Drive(o, rd, run.Opts{MaxReads: 400})
 			c.Events += int64(rd.Stats.Reads + len(tr.Entries))
 			hist = append(hist, "probe schema over reversed records")
+		case 6: // a near-copy of the probe's schema over the probe's own input: one flag flipped, one
+			// string in another letter case or with a blank added, one value taken from a member of
+			// the same name - what a process-wide cache with a lossy key takes for the probe's schema
+			for try := 0; try < 3; try++ {
+				ns, d := simio.SiblingJSON(c.T, w.Schema)
+				if d == "" {
+					continue
+				}
+				if s, es, ps := run.NewSchema("sim-schema", ns); s == nil || es != "" || ps != "" {
+					c.Count("history.near-copy-schema-rejected", 1)
+					continue
+				}
+				o := w.Clone()
+				o.Schema = ns
+				rd := simio.NewReader(o.Input, simio.DrawPlan(c.T, o.Input))
+				tr := run.Drive(o, rd, run.Opts{MaxReads: 400})
+				c.Events += int64(rd.Stats.Reads + len(tr.Entries))
+				hist = append(hist, "near-copy of the probe schema ("+d+") over the probe's input")
+				c.Count("history.near-copy-schema-run", 1)
+				break
+			}
 		}
 	})
 	c.T.End()
@@ -218,6 +239,9 @@ func runC15(c *Ctx) []Violation {
 			c.Count("fault.stored-value-retyped", 1)
 		} else if fi == w.Shape.IntIdx {
 			nr.Vals[fi] = nr.Vals[fi] + "7"
+		} else if c.T.Bool("c15.flip.at-the-end") {
+			// (the end of a value is not the beginning: a value may be stored in several pieces)
+			nr.Vals[fi] = nr.Vals[fi] + "Q"
 		} else {
 			nr.Vals[fi] = "Q" + nr.Vals[fi]
 		}
